@@ -17,13 +17,19 @@ translated definitions themselves.  harness/py2lean2.py is the translator; this 
         * `for x in <obj>.<attr>: <in-place statements on x>` = the attribute is re-bound to the list of the updated
           elements (`mapExcept`);
         * `[f(x) for x in xs]` with `f` monadic (`mapExcept`);
-        * `x is None` / `x is not None` on optional values;
+        * `x is None` / `x is not None` on optional values; values the rules declare non-null (`RulesX.nonnull`) keep
+          that type through local assignments: `t = self.target; if t is None: …` is `if false` (so a temporary that
+          replaces a repeated attribute read does not change the translation's type);
         * `assert <int>` (truthiness of an integer: rule flag "int");
         * `return e` / falling off the end of a method that mutates its receiver: `ret` / `end` templates may mention
           `{self}` (the current Lean name of the receiver) and so may every rule template;
         * an `if` whose translated test is the literal `true` / `false` (a keyword argument the call site fixes):
           only the live branch is translated.
-  (2) the C08 vocabulary (rules) and the list of functions to translate, resolved through the live MROs.
+  (2) the C08 vocabulary (rules) and the list of functions to translate, resolved through the live MROs.  The rules are
+      kept compositional - one rule per call, never a rule for a nested expression where the parts have a meaning of
+      their own (`x.centre()`, `x.norm()`, `a - b`, `a / b`, `optimal_rotation_matrix(…)`, `Rotation(r)`,
+      `scale_about_centre(c, r)`) - so that hoisting a sub-expression into a local, or inlining one, keeps the source
+      translatable (refactorings/C08-1).
 """
 import ast
 import os
@@ -54,13 +60,16 @@ class RulesX(py2lean2.Rules2):
     (dropped); `notnone`: names known not to be None (specialisation of a function to a call shape); expr rules may be
     flagged "bind" (monadic: hoisted) or "int" (an integer: true when non-zero in a test)."""
 
-    def __init__(self, expr=(), stmt=(), scratch=(), recv_name="self", drop=(), notnone=(), **kw):
+    def __init__(self, expr=(), stmt=(), scratch=(), recv_name="self", drop=(), notnone=(), nonnull=(), **kw):
         self.stmt_flag = [(s[3] if len(s) > 3 else "") for s in stmt]
         py2lean2.Rules2.__init__(self, expr=expr, stmt=[s[:3] for s in stmt], **kw)
         self.scratch = set(scratch)
         self.recv_name = recv_name
         self.drop = [_pat(p, "stmt") for p in drop]
         self.notnone = set(notnone)      # python names known not to be None (specialisation to a call shape)
+        # expressions whose value is never None (their Lean type is not an Option); a local bound to one of them - or
+        # to another such local - inherits that: `t = self.target; if t is None: …` is `if false`
+        self.nonnull = [_sort_keywords(_pat(p, "expr")) for p in nonnull]
         for pat, _t, _f in self.expr:
             _sort_keywords(pat)
         for pat, _r, _t in self.stmt:
@@ -121,7 +130,7 @@ class TranslatorX(py2lean2.Translator2):
         if (isinstance(node, ast.Compare) and len(node.ops) == 1 and isinstance(node.ops[0], (ast.Is, ast.IsNot))
                 and isinstance(node.comparators[0], ast.Constant) and node.comparators[0].value is None):
             neg = isinstance(node.ops[0], ast.IsNot)
-            if isinstance(node.left, ast.Name) and node.left.id in self.r.notnone:
+            if self._nonnull(node.left, scope):
                 return ("true" if neg else "false"), ""
             x = self.pure(node.left, scope)
             if x == "none":
@@ -148,6 +157,13 @@ class TranslatorX(py2lean2.Translator2):
             fr = Fraction(repr(node.value))
             return "((%d : Rat) / %d)" % (fr.numerator, fr.denominator), ""
         return py2lean2.Translator2.expr(self, node, scope)
+
+    def _nonnull(self, node, scope):
+        """the expression is known not to be None: a name the call shape fixes, a local bound to a non-null value, or
+        an expression the rules declare non-null"""
+        if isinstance(node, ast.Name):
+            return node.id in self.r.notnone or ("\0nn:" + node.id) in scope
+        return any(match(pat, node, {}) for pat in self.r.nonnull)
 
     def pure(self, node, scope):
         e, flag = self.expr(node, scope)
@@ -250,6 +266,16 @@ class TranslatorX(py2lean2.Translator2):
                 if self.r.stmt_flag[i] == "bind":
                     return pad + self.r.bind.format(m=val, x=new, k=self.block(rest, sc, ind + 1, ctx))
                 return "%slet %s := %s\n%s" % (pad, new, val, self.block(rest, sc, ind, ctx))
+        if isinstance(st, ast.Assign) and len(st.targets) == 1 and isinstance(st.targets[0], ast.Name):
+            e, flag = self.expr(st.value, scope)
+            if flag != "bind":
+                lines, sc = self.bind_target(st.targets[0], e, scope)
+                key = "\0nn:" + st.targets[0].id
+                if self._nonnull(st.value, scope):
+                    sc[key] = "\0"
+                else:
+                    sc.pop(key, None)
+                return "".join(pad + l + "\n" for l in lines) + self.block(rest, sc, ind, ctx)
         if isinstance(st, ast.For):
             m = self._inplace_map(st, rest, scope, ind, ctx)
             if m is not None:
@@ -419,8 +445,9 @@ def obj_expr():
         ("$x._build_alignment_h_matrix($s, $t)", "e.affineOf {s} {t}"),
         ("procrustes_alignment($s, $t, rotation=$r, allow_mirror=$m)", "(⟨e.procrustes {r} {m} {s} {t}⟩ : Hom)"),
         ("optimal_rotation_matrix($s, $t, allow_mirror=$m)", "e.rotationOf {m} {s} {t}"),
-        ("$t.centre() - $s.centre()", "e.translationOf {s} {t}"),
-        ("$t.norm() / $s.norm()", "e.scaleOf {s} {t}"),
+        # `target.centre() - source.centre()`, `target.norm() / source.norm()`: the operands may be hoisted into locals
+        ("$x.centre()", "(CentreOf.mk {x})"),
+        ("$x.norm()", "(NormOf.mk {x})"),
         # remembered options; matrices
         ("$x.rotation", "attrFlag {x}.rotation genDefault_procrustes_rotation"),
         ("$x.allow_mirror", "attrFlag {x}.allowMirror genDefault_procrustes_allow_mirror"),
@@ -546,9 +573,11 @@ def paren(rules):
 
 def obj_rules(cl, end=".ok {self}", ret=".ok ({e})", scratch=(), extra_expr=(), extra_stmt=(), sub=False, drop=()):
     expr = list(extra_expr) + NP_EXPR + obj_expr()
-    binop = {ast.Sub: "(np.sub {a} {b})"} if sub else None
+    binop = {ast.Sub: "(np.sub {a} {b})" if sub else "(e.translationOf ({b}).p ({a}).p)",
+             ast.Div: "(e.scaleOf ({b}).p ({a}).p)"}
     return RulesX(expr=paren(expr), stmt=list(extra_stmt) + NP_STMT + obj_stmt() + init_stmt(cl), raise_=None,
-                  raise_by=EXC, end=end, ret=ret, scratch=scratch, binop=binop, drop=drop)
+                  raise_by=EXC, end=end, ret=ret, scratch=scratch, binop=binop, drop=drop,
+                  nonnull=("$x.target", "$x._target", "$x.source", "$x._source"))
 
 
 # ---------------------------------------------------------------------------------------------------------- the file
@@ -582,6 +611,13 @@ variable {Pts A S : Type} [Inhabited A]
 /-- a homogeneous transform that is not an alignment, by its matrix (`procrustes_alignment(…)`) -/
 structure Hom where
   h : Mat
+
+/-- `x.centre()` / `x.norm()`, by the point set (the model's fits take the point sets: `target.centre() -
+source.centre()` is `translationOf source target`, `target.norm() / source.norm()` is `scaleOf source target`) -/
+structure CentreOf (Pts : Type) where
+  p : Pts
+structure NormOf (Pts : Type) where
+  p : Pts
 """
 
 FOOTER = "\nend MenpoModel.Generated.C08\n"
@@ -933,11 +969,11 @@ def edit_items(cl):
         return similarity.procrustes_alignment
     proc_rules = lambda: RulesX(expr=paren([
         ("Translation(-$x.centre(), skip_checks=True)", "pk.negCentre {x}"),
-        ("UniformScale($t.norm() / $s.norm(), $s.n_dims, skip_checks=True)", "pk.scale {s} {t}"),
+        ("UniformScale($t.norm() / $s.norm(), $n, skip_checks=True)", "pk.scale {s} {t} {n}"),
         ("Similarity.init_identity($n)", "pk.identity {n}"),
         ("$x.n_dims", "nDims {x}"),
-        ("Rotation(optimal_rotation_matrix($a, $b, allow_mirror=$m), skip_checks=True)",
-         "pk.rotation {m} ({a}).1 ({b}).1 ({a}).2 ({b}).2"),
+        ("optimal_rotation_matrix($a, $b, allow_mirror=$m)", "pk.optimalRotation {m} ({a}).1 ({b}).1 ({a}).2 ({b}).2"),
+        ("Rotation($r, skip_checks=True)", "pk.rotation {r}"),
         ("$p.apply($x)", "(({p}, {x}) : Mat × Pts)"),
         ("$t.pseudoinverse()", "pk.pinv {t}")]),
         stmt=[("$p.compose_before_inplace($t)", "p", "pk.before {p} {t}")], raise_=None, raise_by=EXC, ret="{e}")
@@ -974,10 +1010,11 @@ def gpa_rules(cl, target_given, end=".ok {self}", ret=".ok ({e})"):
         ("$x.max_iterations", "{x}.maxIterations"), ("$x.initial_target_scale", "{x}.initialTargetScale"),
         ("AlignmentSimilarity($s, $t, allow_mirror=$m)", "genNew_AlignmentSimilarity e {s} {t} (allowmirror := {m})", "bind"),
         ("$x.norm()", "gk.norm {x}"),
+        ("$a / $b", "gk.ratio {a} {b}"),
         ("mean_pointcloud($l)", "gk.meanOf {l}"),
         ("PointCloud($x.points, copy=False)", "{x}"),
         ("$t.aligned_source()", "genAlignedSource e {t}"),
-        ("scale_about_centre($c, $a / $c.norm())", "gk.rescale {a} {c}"),
+        ("scale_about_centre($c, $r)", "gk.scaleAbout {c} {r}"),
         ("np.linalg.norm($a.points - $b.points)", "gk.dist {a} {b}"),
         ("$d < 1e-6", "gk.below {d}"),
         ("$s._recursive_procrustes()", "genRecursiveProcrustes np e gk fuel {s}", "bind"),
